@@ -69,6 +69,13 @@ func init() {
 					}
 				}
 			}
+			// the mirror image: the HOST is gone (its connections dropped), the
+			// plugin's own code accepts and dials
+			for _, kind := range c09Kinds[1:] {
+				for _, wait := range []string{"0", "200ms", "3s"} {
+					out = append(out, sp("C09", fmt.Sprintf("hostgone/%s%s/%s", kind["proto"], kind["mux"], wait), seed, cp(kind, "hist", "hostgone", "wait", wait)))
+				}
+			}
 			n := 600
 			if tier == "thorough" {
 				n = 150000
@@ -173,7 +180,107 @@ func runC09Dead(r *h.Run) {
 	}
 }
 
+// runC09HostGone: the host's connections drop; unmatched accepts and dials
+// issued by the PLUGIN's own code must come back.
+func runC09HostGone(r *h.Run) {
+	w := r.W
+	c := r.ConfFromParams()
+	kind := c.Proto
+	if c.Mux {
+		kind += "+mux"
+	}
+	ctx := fmt.Sprintf("broker=%s peer=host-gone side=plugin", kind)
+	var mu sync.Mutex
+	hostEnds := map[*k.Endpoint]bool{}
+	w.OnConnWrite = func(e *k.Endpoint, data []byte) {
+		if o := e.Owner(); o != nil && o.Name == "host" {
+			mu.Lock()
+			hostEnds[e] = true
+			mu.Unlock()
+		}
+	}
+	s := open(r, c)
+	if s == nil {
+		return
+	}
+	// one ordinary pair first: the broker stream exists and works
+	s.cmd.Do("accept", "2300")
+	if o := r.DoNoHang("HostDial", 60*time.Second, ctx, func() (any, error) { return h.HostDialPing(s.cmd, 2300) }); o.Err != nil {
+		r.Violate("setup", "pair before the host goes away "+ctx, fmt.Sprint(o.Err))
+		return
+	}
+	if s.c.Sh == nil || len(s.c.Sh.Brokers) == 0 {
+		r.Violate("setup", "no plugin-side broker recorded "+ctx, "")
+		return
+	}
+	pb, _ := s.c.Sh.Brokers[len(s.c.Sh.Brokers)-1].(*plugin.GRPCBroker)
+	plug := w.ProcByName("plugin")
+	if pb == nil || plug == nil {
+		return
+	}
+	mu.Lock()
+	for e := range hostEnds {
+		e.Reset()
+	}
+	mu.Unlock()
+	w.CountFault("conn.rst@host-gone")
+	time.Sleep(parseDur(r.Spec.P("wait", "200ms")))
+	if !plug.Alive() {
+		// (with multiplexing the plugin's only session is gone with the host's
+		// connection: its server ends and the process exits)
+		w.Probe("hostgone.plugin-exited-with-the-connection")
+		return
+	}
+	const B = 30 * time.Second
+	var wg sync.WaitGroup
+	for i := 0; i < 3; i++ {
+		id := uint32(2400 + i)
+		wg.Add(2)
+		go k.Trap(func() {
+			defer wg.Done()
+			o := r.Do(fmt.Sprintf("Accept(%d)[plugin]", id), B+10*time.Second, func() (any, error) {
+				plug.Adopt() // the plugin's own code
+				ln, err := pb.Accept(id)
+				if err == nil {
+					defer ln.Close()
+				}
+				return nil, err
+			})
+			if o.Hung && plug.Alive() {
+				r.Violate("hang", "op=accept-nodial "+ctx, fmt.Sprintf("plugin-side Accept still outstanding after %v simulated\n%s", o.Took, h.StacksOf("plugin", "goplugin")))
+			}
+		})
+		go k.Trap(func() {
+			defer wg.Done()
+			o := r.Do(fmt.Sprintf("Dial(%d)[plugin]", id+100), B+10*time.Second, func() (any, error) {
+				plug.Adopt()
+				conn, err := pb.Dial(id + 100)
+				if err != nil {
+					return nil, err
+				}
+				defer conn.Close()
+				return plugins.PingConn(conn, 10*time.Second)
+			})
+			if o.Hung && plug.Alive() {
+				r.Violate("hang", "op=dial-noaccept "+ctx, fmt.Sprintf("plugin-side Dial still outstanding after %v simulated\n%s", o.Took, h.StacksOf("plugin", "goplugin")))
+			} else if o.Err == nil && !o.Hung {
+				r.Violate("phantom", ctx+" dial without accept succeeded", "")
+			}
+		})
+	}
+	wg.Wait()
+	if !plug.Alive() {
+		return // it exited meanwhile: the outcomes above say nothing
+	}
+	w.Probe("hostgone.checked")
+	plug.Crash(137, "end of run")
+}
+
 func runC09(r *h.Run) {
+	if r.Spec.P("hist", "") == "hostgone" {
+		runC09HostGone(r)
+		return
+	}
 	if r.Spec.P("killrace", "") != "" {
 		runKillRace(r, "C09")
 		return
